@@ -137,11 +137,13 @@ pub fn gen_c06(run: &mut Run, seed: u64, thorough: bool) {
         }
     }
     // ---------------- gas service (owner; collector) ----------------
-    for (hname, hops) in &hists {
+    // (also with ONE address holding both roles at construction: ownership then moves, the collector role must not follow)
+    for (same, (hname, hops)) in [false, true].into_iter().flat_map(|b| hists.iter().map(move |h| (b, h))) {
+        let hname = &if same { format!("{hname}-one-address-both-roles") } else { hname.to_string() };
         run.scenario("gs", &format!("c06-gs-{hname}"));
         run.op("time 1000 10", "time");
         let gs = Addr::c(150);
-        let collector = Addr::c(OPER0);
+        let collector = if same { owner0.clone() } else { Addr::c(OPER0) };
         run.op(&format!("gs.new {} {} {}", gs.tok(), owner0.tok(), collector.tok()), "construct");
         let o = run.op(&format!("sac.new {}", Addr::c(5).tok()), "env-token");
         let tok = Addr::parse(o.split(' ').nth(1).unwrap());
